@@ -11,13 +11,30 @@ from . import common
 
 
 def run(ctx):
-    cfg = "MCIrcLine_quick.cfg" if ctx.quick() else "MCIrcLine_thorough.cfg"
     conn = "2500" if ctx.quick() else "-1"
-    rc, out, tl = ctx.pipe_tlc_to_drv("MCIrcLine.tla", cfg, ["irc-parse", "-conn", conn, "-seed", str(ctx.seed)],
-                                      workers=None, what="bounded product of component alphabets; Expected(m) emitted per message")
-    s = ctx.summary_line(out)
-    if s is None or rc not in (0, 1) or not tl.ok:
-        raise common.Inconclusive("message replay did not complete (rc=%s): %s\n%s" % (rc, out[-1500:], tl.out[-1500:]))
+    cfgs = ["MCIrcLine_quick.cfg"] if ctx.quick() else ["MCIrcLine_thorough_s%d.cfg" % k for k in range(8)]
+
+    def one(cfg):
+        return ctx.pipe_tlc_to_drv("MCIrcLine.tla", cfg, ["irc-parse", "-conn", conn, "-seed", str(ctx.seed)], workers=2,
+                                   what="bounded product of component alphabets; Expected(m) emitted per message")
+    from concurrent.futures import ThreadPoolExecutor
+    ctx.drv()  # build once, before the threads start
+    with ThreadPoolExecutor(max_workers=8) as ex:
+        parts = list(ex.map(one, cfgs))
+    s = None
+    for rc, out, tl in parts:
+        p = ctx.summary_line(out)
+        if p is None or rc not in (0, 1) or not tl.ok:
+            raise common.Inconclusive("message replay did not complete (rc=%s): %s\n%s" % (rc, out[-1500:], tl.out[-1500:]))
+        if s is None:
+            s = p
+        else:
+            for k in ("messages", "distinct_raw", "ambiguous_renderings", "function_level_failures", "connection_level_messages", "connection_level_failures", "sessions"):
+                s[k] += p[k]
+            for k in ("failure_classes", "expected_cmd_counts"):
+                for a, b in p[k].items():
+                    s[k][a] = s[k].get(a, 0) + b
+            s["findings"] = (s["findings"] or []) + (p["findings"] or [])
     if s["messages"] < 1000 or s["ambiguous_renderings"]:
         raise common.Inconclusive("generator problem: %s" % {k: s[k] for k in ("messages", "ambiguous_renderings")})
     for i, f in enumerate(s["findings"] or []):
